@@ -50,6 +50,7 @@ Definition hook_at_ok (v : vhdr) (i j : Z) : bool := at_end v i j <=? cap_words 
 Definition hook_raw_ok (v : vhdr) : bool := raw_words v * v_w v <=? v_len v.
 
 (* ---- constructors ---- *)
+Definition U64 : Z := 2 ^ 64.
 Definition round64 (x : Z) : Z := (x + 63) / 64 * 64.       (* usize::next_multiple_of(64) *)
 Definition bytes_of (n cols size w : Z) : Z := n * cols * size * w.
 
@@ -60,6 +61,10 @@ Definition v_from_bytes (n cols size w len : Z) : option vhdr :=
   if len =? bytes_of n cols size w then Some (mkV n cols size size len w) else None.
 (* from_data: no validation at all *)
 Definition v_from_data (len n cols size w : Z) : vhdr := mkV n cols size size len w.
+(* VecZnx / ScalarZnx::from_data after repair 2067fe8: assert!(n*cols*size*8 <= data.len()) with checked products;
+   the other layouts (VecZnxBig, VecZnxDft, SvpPPol, MatZnx, VmpPMat, CnvPVec) still use the unchecked form above *)
+Definition v_from_data_checked (len n cols size w : Z) : option vhdr :=
+  if (n * cols * size * w <? U64) && (n * cols * size * w <=? len) then Some (mkV n cols size size len w) else None.
 (* set_size: assert!(size <= self.max_size) *)
 Definition v_set_size (v : vhdr) (s : Z) : option vhdr :=
   if s <=? v_max v then Some (mkV (v_n v) (v_cols v) s (v_max v) (v_len v) (v_w v)) else None.
@@ -75,19 +80,32 @@ Definition v_scalar_as_vec (v : vhdr) : vhdr := mkV (v_n v) (v_cols v) 1 1 (v_le
 (* VecZnx::as_scalar_znx_ref(col, limb): data = the n words of at(col, limb), cols = 1 *)
 Definition v_as_scalar (v : vhdr) : vhdr := mkV (v_n v) 1 1 1 (v_n v * v_w v) (v_w v).
 
-(* ---- deserialisation: ReaderFrom for VecZnx (w = 8) ----
-   stream header = (n, cols, size, max_size, len) as u64; release arithmetic: the product wraps mod 2^64.
+(* ---- deserialisation: ReaderFrom for VecZnx (w = 8), after repair 206cd69 ----
+   stream header = (n, cols, size, max_size, len) as u64.  The products are CHECKED (a product >= 2^64 is rejected),
+   max_size < size is rejected, and the committed capacity never exceeds what the receiver's buffer holds:
+   max_size := min(max_size, |data| / (n*cols*8))   (the stream's max_size when n*cols = 0).
    `avail` = number of payload bytes the stream still holds after the header. *)
 Record stream_hdr : Type := mkS { sh_n : Z; sh_cols : Z; sh_size : Z; sh_max : Z; sh_len : Z }.
-Definition U64 : Z := 2 ^ 64.
 Inductive read_res : Type :=
 | RErr                      (* io::Error returned, receiver untouched *)
 | ROk (v : vhdr).           (* Ok(()), receiver's header now v *)
 Definition v_read_from (v : vhdr) (h : stream_hdr) (avail : Z) : read_res :=
+  let limb_bytes := sh_n h * sh_cols h * 8 in
+  let expected := limb_bytes * sh_size h in
+  if (U64 <=? sh_n h * sh_cols h) || (U64 <=? limb_bytes) || (U64 <=? expected) then RErr       (* checked_mul *)
+  else if negb (expected =? sh_len h) then RErr
+  else if sh_max h <? sh_size h then RErr
+  else if v_len v <? sh_len h then RErr
+  else if avail <? sh_len h then RErr                      (* read_exact fails *)
+  else
+    let capacity := if limb_bytes =? 0 then sh_max h else v_len v / limb_bytes in
+    ROk (mkV (sh_n h) (sh_cols h) (sh_size h) (Z.min (sh_max h) capacity) (v_len v) (v_w v)).
+(* the code before the repair: wrapping product, max_size committed unchecked (kept for the refutation witnesses) *)
+Definition v_read_from_old (v : vhdr) (h : stream_hdr) (avail : Z) : read_res :=
   let expected := (sh_n h * sh_cols h * sh_size h * 8) mod U64 in
   if negb (expected =? sh_len h) then RErr
   else if v_len v <? sh_len h then RErr
-  else if avail <? sh_len h then RErr                      (* read_exact fails *)
+  else if avail <? sh_len h then RErr
   else ROk (mkV (sh_n h) (sh_cols h) (sh_size h) (sh_max h) (v_len v) (v_w v)).
 (* WriterTo: what a well-formed writer emits *)
 Definition v_write_hdr (v : vhdr) : stream_hdr :=
@@ -123,10 +141,12 @@ Definition m_at_end (m : mhdr) (row col : Z) : Z := m_at_start m row col + m_nb 
 Definition m_at_view (m : mhdr) : vhdr := mkV (m_n m) (m_cout m) (m_size m) (m_size m) (m_nb m) (m_w m).
 (* the DEFAULT ZnxView::at_ptr(i, j) on a matrix layout (cols() = cols_in, rows ignored): what it addresses *)
 Definition m_trait_at_end (m : mhdr) (i j : Z) : Z := m_n m * (j * m_cin m + i) + m_n m.
-(* MatZnx::read_from: the five-factor product, wrapping *)
+(* MatZnx::read_from after repair 206cd69: the five-factor product is checked *)
 Definition m_read_from (m : mhdr) (n size rows cin cout len avail : Z) : option mhdr :=
-  let expected := (rows * cin * n * cout * size * 8) mod U64 in
-  if negb (expected =? len) then None
+  let expected := rows * cin * n * cout * size * 8 in
+  if (U64 <=? rows * cin) || (U64 <=? rows * cin * n) || (U64 <=? rows * cin * n * cout) || (U64 <=? rows * cin * n * cout * size)
+     || (U64 <=? expected) then None
+  else if negb (expected =? len) then None
   else if m_len m <? len then None
   else if avail <? len then None
   else Some (mkM n rows cin cout size (m_len m) (m_w m)).
